@@ -17,5 +17,7 @@ CONSTANTS a, b, c
 MCIds == {a, b, c}
 Symm == Permutations(MCIds)
 MCReallocNodes == {{}, {1}, {2}}
-MCReallocTypes == {{}, {"PMEM"}, {"DRAM"}, {"DRAM", "HBM"}}
+MCReallocTypes == {{}, {"PMEM"}, {"DRAM"}}
+\* driver generation (simulation) also asks for a type mask that names a type the machine may not have at all
+SimReallocTypes == MCReallocTypes \cup {{"DRAM", "HBM"}}
 =============================================================================
